@@ -30,6 +30,14 @@ PidConfig field names, mju_clip, and the mjpPlugin callback slots):
                 field its value is computed from, followed through calls), a raw d->act[j] read inside the write is the
                 slot written, and every loaded slot is advanced by some act_dot write.  The ORDER of the own slots is
                 not demanded (no documented contract fixes it; loader and writer agreeing is what matters).
+                Setpoint slot (constructs pid:setpoint-slot:<dyntype>): every read of d->act / d->act_dot that is not a
+                controller state (its value never reaches a State field: the setpoint GetCtrl takes from the native
+                activation, its rate in Compute) lies, for every combination Create accepts, inside the actuator's block
+                [actadr, actadr+actnum), outside the plugin's own slots, at actadr+actnum-1, and for that dyntype ALL
+                act_dot writes of mj_fwdActuation land at actadr+actnum-1 (a dyntype whose states the engine lays out
+                from act_first — pid, dcmotor — has no single native state there).  Dyntypes Create refuses have no
+                accepted combination and are not examined (a loop body that rejects on every path leaves only the
+                no-actuator-visited continuation, which accepts nothing about that actuator).
   R-WHO-WRITES  the mjData / mjModel fields each registered callback can write (field-level mod events over the
                 callback lambda and everything it calls inside the plugin TU; mjData passed whole only to engine
                 functions with a listed effect) are within the allowed set of that callback.
@@ -969,7 +977,7 @@ class Attr:
 
 
 class Num:
-    """A floating-point value; deps: the d->act slots it was computed from, as (linear form | None, tag) with tag None
+    """A floating-point value; deps: the d->act slots it was computed from, as (linear form | None, tag, read id) with tag None
     (read directly), '@direct' (read inside the statement that writes act_dot) or the State field it was loaded through."""
 
     def __init__(self, deps=frozenset()):
@@ -1074,7 +1082,9 @@ class SlotInterp:
         self.assign = assign          # {(kind, field): bool}
         self.dyn = dyn                # enumerator name of the actuator's dyntype
         self.loads = []               # (State field, LF | None, node, function key)
-        self.writes = []              # (LF | None, deps, node, function key)
+        self.writes = []              # (field, LF | None, deps, node, function key)
+        self.reads = {}               # read id -> (field, LF | None, direct?, node, function key): reads of act / act_dot
+        self.state_rids = set()       # ids of the reads whose value was stored into a State field
         self.stack = []
         self.fresh = 0
         self.direct_depth = None
@@ -1287,6 +1297,8 @@ class SlotInterp:
             after["$pc"] = keep
         else:
             after = before
+            if res:
+                after["$novisit"] = True
         self._havoc(after, mod, "after")
         return res + [("N", after, None)]
 
@@ -1383,12 +1395,14 @@ class SlotInterp:
         """A read (value) or the designation (lvalue) of slot `idx` of d->act / d->act_dot."""
         if lvalue:
             return ("slot", fld, idx)
+        if idx is None:
+            raise AnalysisError(f"{self._here()}: d->{fld} is read at an index that could not be evaluated "
+                                f"(line {n.get('line')}: `{cir.text(n)}`)")
+        direct = fld == "act" and self.direct_depth == len(self.stack)
+        rid = len(self.reads)
+        self.reads[rid] = (fld, idx, direct, n, self._here())
         if fld == "act":
-            if idx is None:
-                raise AnalysisError(f"{self._here()}: d->act is read at an index that could not be evaluated "
-                                    f"(line {n.get('line')}: `{cir.text(n)}`)")
-            tag = "@direct" if self.direct_depth == len(self.stack) else None
-            return Num({(idx, tag)})
+            return Num({(idx, "@direct" if direct else None, rid)})
         return Num()
 
     def _subscript(self, n, env, lvalue=False):
@@ -1425,9 +1439,10 @@ class SlotInterp:
                 if isinstance(obj, Struct):
                     obj.f[l.get("n")] = val
                     if obj.tname == "State" and isinstance(val, Num):
-                        for form, tag in val.deps:
+                        for form, tag, rid in val.deps:
                             if tag in (None, "@direct"):
                                 self.loads.append((l.get("n"), form, node, self._here()))
+                                self.state_rids.add(rid)
                     return
             df = self._data_field(l)
             if df and df[0] == "mjData" and df[1] in self.ACT_FIELDS:
@@ -1503,7 +1518,7 @@ class SlotInterp:
                     if v is None:
                         v = Num() if _is_flt_t(n.get("t")) else UNK
                     if obj.tname == "State" and isinstance(v, Num):
-                        v = Num({(f, n.get("n") if t in (None, "@direct") else t) for f, t in v.deps})
+                        v = Num({(f, n.get("n") if t in (None, "@direct") else t, r) for f, t, r in v.deps})
                     return v
             if b is not None:
                 self.eval(b, env)
@@ -1841,8 +1856,43 @@ def _engine_native_slots(repo):
             continue
         form = linform.linform(cir.kids(l)[1], defs)
         for e in live:
-            out[e].append((n.get("line"), form))
+            out[e].append((n.get("line"), form, _ends_at_last(fn, n, form, defs, linform)))
     return hosts[0], tu, out
+
+
+def _ends_at_last(fn, write, form, defs, linform):
+    """Is the slot written actadr + actnum - 1, the last of the block?  Either the index is exactly that, or the write
+    sits in a counted loop `for (j...; j < c; ...)` and the index is actadr + actnum - c + j (a block of c native states
+    that ends at the last slot)."""
+    ka = [t for t in form if "actuator_actadr[" in t]
+    kn = [t for t in form if "actuator_actnum[" in t]
+    if len(ka) != 1 or len(kn) != 1 or form[ka[0]] != 1 or form[kn[0]] != 1:
+        return False
+    rest = {t: c for t, c in form.items() if t not in (ka[0], kn[0])}
+    rest["1"] = rest.get("1", 0) + 1
+    rest = {t: c for t, c in rest.items() if c}
+    if not rest:
+        return True
+    for loop in cir.walk(fn):
+        if loop.get("k") != "ForStmt" or not any(x is write for x in cir.walk(loop)):
+            continue
+        c = list(cir.kids(loop)) + [None] * 5
+        cond = cir.strip(c[2]) if c[2] is not None else None
+        if cond is None or cond.get("k") != "BinaryOperator" or cond.get("op") != "<":
+            continue
+        var = cir.strip(cir.kids(cond)[0])
+        if var is None or var.get("k") != "DeclRefExpr":
+            continue
+        bound = linform.linform(cir.kids(cond)[1], defs)
+        # at the last iteration var = bound - 1
+        r2 = dict(rest)
+        coeff = r2.pop((var.get("ref") or {}).get("n"), 0)
+        for t, cf in bound.items():
+            r2[t] = r2.get(t, 0) + coeff * cf
+        r2["1"] = r2.get("1", 0) - coeff
+        if coeff == 1 and not {t: c_ for t, c_ in r2.items() if c_}:
+            return True
+    return False
 
 
 def _tail_anchored(form):
@@ -1884,8 +1934,8 @@ def table_rule(res, pid, repo, cbs):
         nums = set()
         accepted = False
         for kind, env, val in outs:
-            if kind != "R" or val is NULL:
-                continue
+            if kind != "R" or val is NULL or env.get("$novisit"):
+                continue        # refused, or accepted only because no actuator of this kind was visited
             accepted = True
             eqs = [d for d, op in env.get("$pc", ()) if op == "==" and N_SYM in d.t]
             if not eqs:
@@ -1901,12 +1951,12 @@ def table_rule(res, pid, repo, cbs):
             return None
         if len(nums) != 1:
             raise AnalysisError(f"{create.key}: accepting paths pin actuator_actnum to different values {sorted(nums)}")
-        it.loads, it.writes = [], []
+        it.loads, it.writes, it.reads, it.state_rids = [], [], {}, set()
         for slot, node in entries:
             it.stack.append(f"callback:{slot}")
             it.block(cir.kids(node) if node.get("k") == "CompoundStmt" else [node], {})
             it.stack.pop()
-        return nums.pop(), it.loads, it.writes
+        return nums.pop(), it.loads, it.writes, (it.reads, it.state_rids)
 
     preds = []
     while True:
@@ -1924,7 +1974,7 @@ def table_rule(res, pid, repo, cbs):
 
     host, etu, native = _engine_native_slots(repo)
     # ---- the size contract
-    extra_of, quirks = {}, []
+    extra_of = {}
     for vals in itertools.product((False, True), repeat=len(preds)):
         base = table[(vals, "mjDYN_NONE")]
         if base is None:
@@ -1939,27 +1989,28 @@ def table_rule(res, pid, repo, cbs):
             raise AnalysisError(f"{create.key}: the activation slots demanded beyond the dyntype-none count are not a "
                                 f"fixed non-negative number for {dyn}: {sorted(ex)}")
     extra_of = {d: min(ex) for d, ex in extra_of.items()}
-    cite = {}
+    cite, quirks = {}, []
     for dyn, ex in sorted(extra_of.items()):
-        tails = [(ln, f) for ln, f in native.get(dyn, ()) if _tail_anchored(f)]
-        if ex > 0:
-            if not tails:
-                raise AnalysisError(f"{create.key} grants {ex} extra activation slot(s) for {dyn}, but {host} ({etu}) does "
-                                    f"not write a slot counted from the end of the block for it — contract not understood")
-            cite[dyn] = tails[0][0]
-        elif tails and dyn != "mjDYN_NONE":
+        # the dyntype's native state is the single last slot: every act_dot write of the engine for it lands there
+        # (a dyntype with further writes counted from act_first keeps a block of states the plugin does not provide for)
+        last = [ln for ln, _f, at_last in native.get(dyn, ()) if at_last]
+        if last and len(last) == len(native.get(dyn, ())) and dyn != "mjDYN_NONE":
+            cite[dyn] = last[0]
+        if not ex and last and dyn != "mjDYN_NONE":
             quirks.append(dyn)
     res.extra["slot_contract"] = {
         "predicates": [f"{k}:{f}" for k, f in preds],
         "native_slots_granted_by_Create": {d: e for d, e in sorted(extra_of.items())},
         "engine_native_write": {d: f"{etu}:{ln}" for d, ln in sorted(cite.items())},
-        "dyntypes_with_engine_tail_write_but_no_extra_slot": quirks,
+        "accepted_dyntypes_with_engine_last_slot_write_but_no_extra_slot": quirks,
+        "refused_dyntypes": sorted(d for d in dyns if d not in extra_of),
     }
     res.ok("R-TABLE", "pid:actnum-contract", {"extra": {d: e for d, e in sorted(extra_of.items())}, "engine": host})
 
     # ---- the slots
     bad = {}      # construct -> (line, message)   (first finding per construct)
     seen_fields, seen_writes = set(), 0
+    setpoint_dyns = set()
 
     def report(c, node, msg):
         bad.setdefault(c, (node.get("line") if node is not None else create.line, msg))
@@ -1976,9 +2027,10 @@ def table_rule(res, pid, repo, cbs):
         own = base[0]
         for dyn in dyns:
             r = table[(vals, dyn)]
-            if r is None or (dyn in quirks):
+            if r is None:
                 continue
-            num, loads, writes = r
+            num, loads, writes, (reads, state_rids) = r
+            inline_reads = set()
             where = describe(vals, dyn, own, num)
 
             def offset(form, c, node, what):
@@ -2025,7 +2077,7 @@ def table_rule(res, pid, repo, cbs):
                 if fld_ != "act_dot":
                     continue
                 seen_writes += 1
-                tags = {t for _f, t in deps if t not in (None, "@direct")}
+                tags = {t for _f, t, _r in deps if t not in (None, "@direct")}
                 role = STATE_INTEGRAL if STATE_INTEGRAL in tags else (next(iter(tags)) if len(tags) == 1 else None)
                 c = f"pid:state-slot:{role}" if role else f"pid:state-slot:{fk}:act_dot"
                 what = f"{fk} advances " + (f"State.{role}" if role else "a state") + " through d->act_dot: it"
@@ -2037,14 +2089,16 @@ def table_rule(res, pid, repo, cbs):
                                     f"d->act_dot[actadr + {k}] {where}")
                 wrote[k] = wrote.get(k) or role
                 if role:
-                    for f2, t in deps:
+                    for f2, t, _r in deps:
                         if t == role and f2 is not None and f2 != form:
                             report(c, node, f"{fk} writes the derivative computed from State.{role} to slot "
                                             f"`{_slot_text(form)}`, but State.{role} is loaded from slot "
                                             f"`{_slot_text(f2)}` {where}")
-                for f2, t in deps:
+                for f2, t, rid in deps:
                     if t == "@direct" and f2 is not None and f2 != form:
                         k2 = f2.subst(N_SYM, LF(c=num)).plus(LF({A_SYM: 1}), -1).const
+                        if k2 is None or not 0 <= k2 < own:
+                            inline_reads.add(rid)        # a raw read of a slot that is not the plugin's: a setpoint read
                         if k2 is not None and 0 <= k2 < own:
                             report(c, node, f"{fk} computes the derivative of slot `{_slot_text(form)}` from the current "
                                             f"value of another own slot `{_slot_text(f2)}` {where}")
@@ -2054,10 +2108,39 @@ def table_rule(res, pid, repo, cbs):
                         report(f"pid:state-slot:{fld}", None, f"State.{fld} is loaded from slot actadr + {k} but no "
                                                                f"callback writes that slot's act_dot {where}: the state "
                                                                f"never advances")
+            # ---- the reads that are not controller states: the setpoint (and its rate) taken from the native slot
+            c_sp = f"pid:setpoint-slot:{dyn}"
+            if dyn != "mjDYN_NONE":
+                setpoint_dyns.add(dyn)
+            for rid, (fld_, form, direct, node, fk) in sorted(reads.items()):
+                if rid in state_rids or (direct and rid not in inline_reads):
+                    continue
+                what = (f"{fk} reads d->{fld_}[{_slot_text(form)}] (not a controller state: the setpoint or its rate, "
+                        f"line {node.get('line')})")
+                rel = form.subst(N_SYM, LF(c=num)).plus(LF({A_SYM: 1}), -1)
+                if rel.const is None:
+                    if all(s_[0] in ("arr", "id", "m") for s_ in rel.t):
+                        report(c_sp, node, f"{what}: not at a fixed offset from the actuator's own actuator_actadr {where}")
+                        continue
+                    raise AnalysisError(f"{what}: the slot depends on values that could not be evaluated")
+                k = rel.const
+                if 0 <= k < own:
+                    report(c_sp, node, f"{what} = actadr + {k} {where}: that is one of the plugin's own state slots "
+                                       f"[actadr, actadr + {own}) — a controller state is taken for the setpoint")
+                elif k < 0 or k >= num:
+                    report(c_sp, node, f"{what} = actadr + {k} {where}: outside the actuator's activation block "
+                                       f"[actadr, actadr + {num})")
+                elif k != num - 1 or dyn not in cite:
+                    ws = ", ".join(f"{etu}:{ln}" for ln, _f, _l in native.get(dyn, ())) or "none"
+                    report(c_sp, node, f"{what} = actadr + {k} {where}, but {host} does not keep the native state of {dyn} "
+                                       f"in that slot: its act_dot writes for {dyn} ({ws}) are "
+                                       f"{'not all at actadr + actnum - 1' if native.get(dyn) else 'absent'} (the engine lays "
+                                       f"that dyntype's states out from the start of the block), so the slot read is not "
+                                       f"that dyntype's single native state")
     if STATE_INTEGRAL not in seen_fields or len(seen_fields) < 2 or not seen_writes:
         raise AnalysisError(f"state-slot accesses not found: State fields loaded from d->act {sorted(seen_fields)}, "
                             f"act_dot writes {seen_writes} (anchor moved)")
-    constructs = {f"pid:state-slot:{f}" for f in seen_fields} | set(bad)
+    constructs = {f"pid:state-slot:{f}" for f in seen_fields} | {f"pid:setpoint-slot:{d}" for d in setpoint_dyns} | set(bad)
     for c in sorted(constructs):
         if c in bad:
             res.bad("R-TABLE", c, pid.rel, bad[c][0], bad[c][1])
@@ -3461,6 +3544,24 @@ MUTANTS += [
                 "  mjtNum w = quat[0];\n  mjtNum omega[3] = {quat[1], quat[2], quat[3]};\n"
                 "  mjtNum s = mju_normalize3(omega);\n  mjtNum sign = 1;\n  if (w < 0) { w = -w; sign = -1; }\n"
                 "  mju_scl3(omega, omega, sign * 2 * mju_atan2(s, w));\n")]},
+]
+
+
+# ---- the setpoint slot (R-TABLE pid:setpoint-slot:*): Pid::Create as it was before the dyntype whitelist, and the
+#      half-way repair that grants the native slot to every dyntype but none
+_CREATE_NATIVE = ("    if (dyntype == mjDYN_FILTER || dyntype == mjDYN_FILTEREXACT ||\n"
+                  "        dyntype == mjDYN_INTEGRATOR || dyntype == mjDYN_MUSCLE) {\n      expected_actnum++;\n"
+                  "    } else if (dyntype != mjDYN_NONE) {\n"
+                  "      mju_warning(\"actuator %d: dyntype %d is not supported by the pid plugin\",\n"
+                  "                  actuator_id, dyntype);\n      return nullptr;\n    }\n")
+MUTANTS += [
+    {"id": "create-three-native-dyntypes-rest-accepted", "group": "N",
+     "expect": ("R-TABLE", "pid:setpoint-slot:mjDYN_MUSCLE"),
+     "edits": [(PID_TU, _CREATE_NATIVE,
+                "    if (dyntype == mjDYN_FILTER || dyntype == mjDYN_FILTEREXACT ||\n"
+                "        dyntype == mjDYN_INTEGRATOR) {\n      expected_actnum++;\n    }\n")]},
+    {"id": "create-native-slot-for-every-dyntype", "group": "O", "expect": ("R-TABLE", "pid:setpoint-slot:mjDYN_PID"),
+     "edits": [(PID_TU, _CREATE_NATIVE, "    if (dyntype != mjDYN_NONE) {\n      expected_actnum++;\n    }\n")]},
 ]
 
 
